@@ -901,6 +901,7 @@ def run(ctx: Ctx) -> None:
 
 # ---------------------------------------------------------------------------
 WITNESSES = [
+    {"name": "seeded-C08-11", "file": "core/discipline/base_discipline.py", "old": "                cache_output[output_name] = to_value(output_name, value)\n        else:\n            cache_output = cache_entry.outputs\n\n        # TODO: Fix this workaround for input_data that does not match strictly\n        #  the cache one.\n        cache_entry = CacheEntry(input_data, cache_output, cache_entry.jacobian)\n\n", "new": "                cache_output[output_name] = to_value(output_name, value)\n\n            # The entries of the non-simple caches store arrays only:\n            # restore the original input values together with the converted outputs.\n            cache_entry = CacheEntry(input_data, cache_output, cache_entry.jacobian)\n\n", "expect": "8.9", "note": "A cache hit within a non-zero tolerance restores the CACHED inputs into the disc"},
     {"name": "seeded-C08-10", "file": "core/chains/parallel_chain.py", "old": "        if self._use_deep_copy:\n            return [\n                DisciplineData(deepcopy_dict_of_arrays(self.io.data))\n                for _ in range(len(self.disciplines))\n            ]\n\n", "new": "        if self._use_deep_copy:\n            return [DisciplineData(deepcopy_dict_of_arrays(self.io.data))] * len(\n                self.disciplines\n            )\n\n", "expect": "8.7", "note": "MDOParallelChain with use_deep_copy=True hands the same deep copy to all the dis"},
     {"name": "seeded-C08-9", "file": "mda/mda_chain.py", "old": "\n        self.__sub_coupling_structures_iterator = iter(sub_coupling_structures)\n\n        chained_disciplines = []\n        for parallel_tasks in self.coupling_structure.sequence:\n            process = self.__create_process_from_disciplines(parallel_tasks)\n", "new": "\n        chained_disciplines = []\n        for parallel_tasks in self.coupling_structure.sequence:\n            self.__sub_coupling_structures_iterator = iter(sub_coupling_structures)\n            process = self.__create_process_from_disciplines(parallel_tasks)\n", "expect": "8.8", "note": "MDAChain restarts the sub_coupling_structures iterator at every stage of the seq"},
     {"name": "init-order-ignores-own-defaults-only", "file": IC, "old": "                available_data_names.extend(disc.io.output_grammar)\n", "new": "                available_data_names.extend(disc.io.input_grammar)\n", "expect": "8.6"},
